@@ -196,6 +196,8 @@ func judgeC01(c *Check, p *plan.Plan, pr *ProcResult) *Judged {
 			j.v(p, "C01", "malformed", oo.Task, oo.Op, "malformed:err-and-result:"+op.Op, fmt.Sprintf("returned err=%q and result present=%v during %s", r.Err, hasRes, describeOp(p, oo.Task, oo.Op)))
 		} else if hasRes && r.NodeShape != "element:div" {
 			j.v(p, "C01", "malformed", oo.Task, oo.Op, "malformed:node:"+r.NodeShape, "Result.Node is "+r.NodeShape+" during "+describeOp(p, oo.Task, oo.Op))
+		} else if hasRes && strings.HasPrefix(r.HTML, "RENDER-ERROR") {
+			j.v(p, "C01", "malformed", oo.Task, oo.Op, "malformed:unrenderable-node", "Result.Node cannot be rendered ("+r.HTML+") during "+describeOp(p, oo.Task, oo.Op))
 		}
 		ex := expectFor(p, op, c.env.OpenSeam == "present")
 		// time the calling thread itself was descheduled (injected clock stalls) is not the client's to bound
@@ -229,6 +231,8 @@ func snapClass(s string) string {
 	switch {
 	case strings.Contains(s, "result object changed"):
 		return "result-aliased"
+	case strings.HasPrefix(s, "file:"):
+		return "file-modified"
 	case strings.Contains(s, "OriginalURL pointer"):
 		return "options:OriginalURL-replaced"
 	case strings.Contains(s, "*OriginalURL"):
